@@ -412,7 +412,8 @@ structure State where
   dotIdent : Bool := false
   deriving Repr, DecidableEq, Inhabited
 
-/-- the trivia loop of `nextToken`; returns `(pos, comments, space, hasError)` -/
+/-- the trivia loop of `nextToken`; returns `(pos, comments, space, hasError)`; with `hasError` the position is
+the start of the unclosed comment, which runs to the end of the input -/
 def triviaLoop (buf : Bytes) (noPanic : Bool) : Nat → Nat → List Comment → Res (Nat × List Comment × Bytes × Bool)
   | 0, _, _ => .crash
   | fuel + 1, pos, comments =>
@@ -431,9 +432,9 @@ def triviaLoop (buf : Bytes) (noPanic : Bool) : Nat → Nat → List Comment →
           match slice? buf pos1 pos2 with
           | none => .crash
           | some raw =>
-            let comments := comments ++ [{ space := space, raw := raw, pos := pos1, «end» := pos2 }]
-            if hasError then .ok (pos2, comments, [], true)
-            else triviaLoop buf noPanic fuel pos2 comments
+            -- an unclosed comment (recovery mode only) is not a comment of the token: it becomes the <bad> token itself
+            if hasError then .ok (pos1, comments, space, true)
+            else triviaLoop buf noPanic fuel pos2 (comments ++ [{ space := space, raw := raw, pos := pos1, «end» := pos2 }])
 
 /-- `Lexer.nextToken(noPanic)` up to the construction of the `*Error` value -/
 def nextTokenCore (buf : Bytes) (noPanic : Bool) (s : State) : Res State :=
@@ -443,8 +444,12 @@ def nextTokenCore (buf : Bytes) (noPanic : Bool) (s : State) : Res State :=
   | .err e => .err e
   | .ok (pos, comments, space, hasError) =>
     if hasError then
-      .ok { pos := pos, lastKind := lastKind, dotIdent := s.dotIdent,
-            tok := { kind := .bad, comments := comments, pos := pos, «end» := pos } }
+      -- the rest of the input is an unclosed comment: a <bad> token spanning it
+      match slice? buf pos buf.length with
+      | none => .crash
+      | some raw =>
+        .ok { pos := buf.length, lastKind := lastKind, dotIdent := s.dotIdent,
+              tok := { kind := .bad, comments := comments, space := space, raw := raw, pos := pos, «end» := buf.length } }
     else
       let rest := buf.drop pos
       let r := if s.dotIdent then consumeFieldToken rest pos lastKind noPanic
